@@ -2,6 +2,7 @@
 //! products (C07).  A case is `{suite, cid, ty: "rat"|"f64", prop: "C06"|"C07", steps: [...]}`; steps:
 //!   {"op":"from_triplets","arg":{"rows","cols","ts":[[i,j,v],..]}}   {"op":"from_vecs","arg":{"rows","cols","val","ri","cs"}}
 //!   {"op":"insert","i","j","v"}   {"op":"scale","a"}   {"op":"transpose"}   {"op":"products","x","y","a"}
+//!   {"op":"gap","x":<operation>,"n"}  n unlogged calls of the operation on small instances (workspace wrap-around)
 //! After every construction / modification step the six public fields are projected (`f`); in C06 cases
 //! also the four views: get on every position (`gp` present flags, `gv` values), to_triplets (`trip`),
 //! to_dense (`dense`), col_index (`ci`).  A products event logs A x, A^T y, transpose() * y,
@@ -123,6 +124,42 @@ fn products<T: Elem>(s: &Sparse<T>, st: &Value, e: &mut Value) {
     }
 }
 
+/// "gap" step: `n` calls of operation `x` on SMALL instances (at most 2 rows, 2 columns, 3 entries -- they never
+/// touch the slots of a large instance beyond index 1/2) on this thread, nothing logged but the count.  Between
+/// two uses of a large instance this realises an exact distance of n + 1 calls of `x`, the situation in which a
+/// generation mark / small counter of a per-thread or static workspace wraps around.  x = "all": every operation
+/// once per iteration.
+fn gap_run<T: Elem>(x: &str, n: u64) -> Result<u64, String> {
+    use std::hint::black_box;
+    guarded(|| {
+        let t = |v: i64| T::from_ri(v, 0);
+        let mk = |k: u64| -> Sparse<T> { match k % 3 {
+            0 => Sparse::from_vecs(2, 2, vec![t(3), t(-2), t(5)], vec![1, 0, 1], vec![0, 2, 3]),
+            1 => Sparse::from_vecs(1, 2, vec![t(4)], vec![0], vec![0, 0, 1]),
+            _ => Sparse::from_vecs(2, 1, vec![t(7), t(-1)], vec![0, 1], vec![0, 2]) } };
+        let mut smalls: Vec<Sparse<T>> = (0..3).map(mk).collect();
+        let xs: Vec<Vector<T>> = smalls.iter().map(|m| Vector::create((0..m.cols).map(|k| t(2 + k as i64)).collect())).collect();
+        let ys: Vec<Vector<T>> = smalls.iter().map(|m| Vector::create((0..m.rows).map(|k| t(-3 + 5 * k as i64)).collect())).collect();
+        let all = x == "all";
+        let mut done = 0u64;
+        for it in 0..n {
+            let k = (it % 3) as usize;
+            if all || x == "transpose" { black_box(smalls[k].transpose()); }
+            if all || x == "multiply" { black_box(smalls[k].multiply(&xs[k])); }
+            if all || x == "transpose_multiply" { black_box(smalls[k].transpose_multiply(&ys[k])); }
+            if all || x == "get" { black_box(smalls[k].get(0, 0)); black_box(smalls[k].get(smalls[k].rows - 1, smalls[k].cols - 1)); }
+            if all || x == "to_dense" { black_box(smalls[k].to_dense()); }
+            if all || x == "to_triplets" { black_box(smalls[k].to_triplets()); black_box(smalls[k].col_index()); }
+            if all || x == "scale" { smalls[k].scale(&t(-1)); }
+            if all || x == "insert" { let (i, j) = (smalls[k].row_index[0], 0usize); let j = if smalls[k].col_start[1] > 0 { j } else { 1 }; smalls[k].insert(i, j, t(1 + (it % 7) as i64)); }
+            if all || x == "insert_new" { let mut m = mk(it); let (i, j) = if k == 1 { (0, 0) } else if k == 0 { (0, 1) } else { (0, 0) }; if k == 2 { m = mk(1); } m.insert(i, j, t(6)); black_box(m.nonzero); }
+            if all || x == "from_triplets" { let mut ts = smalls[k].to_triplets(); ts.reverse(); black_box(Sparse::from_triplets(smalls[k].rows, smalls[k].cols, &mut ts)); }
+            done += 1;
+        }
+        done
+    })
+}
+
 pub fn run<T: Elem>(case: &Value, out: &mut Out) {
     let cid = geti(case, "cid");
     let prop = if gets(case, "prop") == "C07" { "C07" } else { "C06" };
@@ -135,6 +172,12 @@ pub fn run<T: Elem>(case: &Value, out: &mut Out) {
         let op = gets(st, "op").to_string();
         let mut e = st.clone();
         e["ty"] = json!(T::NAME); e["prop"] = json!(prop); e["cid"] = json!(cid); e["k"] = json!(k);
+        if op == "gap" {
+            let n = geti(st, "n").max(0) as u64;
+            match gap_run::<T>(gets(st, "x"), n) { Ok(d) => { e["done"] = json!(d as i64); e["panic"] = json!(false); } Err(_) => { e["done"] = json!(0); e["panic"] = json!(true); } }
+            out.ev(e);
+            continue;
+        }
         if op == "products" {
             match &s { Some(sp) => products(sp, st, &mut e), None => break }
             out.ev(e);
@@ -359,6 +402,50 @@ fn column_order_history(rng: &mut StdRng, n: usize, m: usize, kind: usize, order
     steps
 }
 
+/// gaps (distance in calls between two uses of the same large instance) at which 8- and 16-bit marks wrap
+const GAPS: [u64; 8] = [255, 256, 257, 511, 512, 65535, 65536, 65537];
+/// Workspace wrap-around case: a LARGE instance (variant 0: many rows, 1: many columns, 2: full = many entries),
+/// and for every operation: use it on the large instance, G - 1 unlogged calls of that operation on small
+/// instances (step "gap"), use it on the same large instance again.  C06: every use is a state event with all
+/// views; C07: every use is a products probe (scale / insert additionally in-history).
+fn gap_case(rng: &mut StdRng, c07: bool, variant: usize, g: u64, maxd: usize) -> Vec<Value> {
+    let (r, c) = match variant { 0 => (maxd, 3), 1 => (3, maxd), _ => (maxd, maxd) };
+    let n = if variant == 2 { r * c } else { r * c - 4 };
+    let mut ts = pattern(rng, r, c, n).into_iter().map(|t| (t.0, t.1, if t.2 == 0 { 4 } else { t.2 })).collect::<Vec<_>>();
+    ts.shuffle(rng);
+    let mut t = track_of(r, c, &ts);
+    let gap = |x: &str| json!({"op": "gap", "x": x, "n": g - 1});
+    let cur = |t: &Track, rng: &mut StdRng| { let mut v: Vec<(usize, usize, i64)> = t.ent.iter().map(|(k, v)| (k.0, k.1, *v)).collect(); v.shuffle(rng); v };
+    let mut steps = vec![ctor_triplets(r, c, &ts)];
+    if c07 {
+        steps.push(products_step(rng, &t));
+        for x in ["transpose", "multiply", "transpose_multiply", "to_dense", "from_triplets", "all"] { steps.push(gap(x)); steps.push(products_step(rng, &t)); }
+        for (x, kind) in [("scale", 2u8), ("insert", 1u8)] {
+            for k in 0..2 { if let Some(m) = mod_kind(rng, &mut t, kind) { steps.push(m); steps.push(products_step(rng, &t)); } if k == 0 { steps.push(gap(x)); } }
+        }
+        // re-binding to transpose() on both sides of a gap
+        steps.push(json!({"op": "transpose"})); std::mem::swap(&mut t.rows, &mut t.cols); t.ent = t.ent.iter().map(|(k, v)| ((k.1, k.0), *v)).collect();
+        steps.push(json!({"op": "transpose"})); std::mem::swap(&mut t.rows, &mut t.cols); t.ent = t.ent.iter().map(|(k, v)| ((k.1, k.0), *v)).collect();
+        steps.push(products_step(rng, &t));
+    } else {
+        let one = json!({"op": "scale", "a": 1});
+        // transpose: the same large instance is rebuilt from its raw arrays before each transpose
+        for k in 0..2 { let v = cur(&t, rng); steps.push(ctor_vecs(t.rows, t.cols, &v)); steps.push(json!({"op": "transpose"})); if k == 0 { steps.push(gap("transpose")); } }
+        { let v = cur(&t, rng); steps.push(ctor_vecs(t.rows, t.cols, &v)); }
+        for x in ["get", "to_dense", "to_triplets"] { steps.push(one.clone()); steps.push(gap(x)); steps.push(one.clone()); }
+        for (x, kind) in [("scale", 2u8), ("insert", 1u8), ("insert_new", 0u8)] {
+            if let Some(m) = mod_kind(rng, &mut t, kind) { steps.push(m); steps.push(gap(x)); }
+            if let Some(m) = mod_kind(rng, &mut t, kind) { steps.push(m); }
+        }
+        for k in 0..2 { let v = cur(&t, rng); steps.push(ctor_triplets(t.rows, t.cols, &v)); if k == 0 { steps.push(gap("from_triplets")); } }
+        steps.push(gap("all"));
+        { let v = cur(&t, rng); steps.push(ctor_triplets(t.rows, t.cols, &v)); }
+        steps.push(json!({"op": "transpose"})); std::mem::swap(&mut t.rows, &mut t.cols); t.ent = t.ent.iter().map(|(k, v)| ((k.1, k.0), *v)).collect();
+        for kind in [1u8, 2, 0] { if let Some(m) = mod_kind(rng, &mut t, kind) { steps.push(m); } }
+    }
+    steps
+}
+
 fn permutations(n: usize) -> Vec<Vec<usize>> {
     fn go(cur: &mut Vec<usize>, used: &mut Vec<bool>, out: &mut Vec<Vec<usize>>) {
         if cur.len() == used.len() { out.push(cur.clone()); return; }
@@ -449,6 +536,11 @@ fn gen_c06(quick: bool, seed: u64, out: &mut Out) {
         let steps = column_order_history(&mut rng, n, m, kind, order, false);
         push(out, TYS[(kind + order + rep) % 2], steps);
     } } } }
+    // (h) workspace wrap-around: large instance, G - 1 small ones, the same large instance again, per operation
+    for variant in 0..3usize { for (gi, g) in GAPS.iter().enumerate() {
+        let steps = gap_case(&mut rng, false, variant, *g, 8);
+        push(out, if *g > 1000 { "f64" } else { TYS[(variant + gi) % 2] }, steps);
+    } }
 }
 
 fn gen_c07(quick: bool, seed: u64, out: &mut Out) {
@@ -509,6 +601,11 @@ fn gen_c07(quick: bool, seed: u64, out: &mut Out) {
         let steps = column_order_history(&mut rng, n, m, kind, order, true);
         push(out, TYS[(kind + order + rep) % 2], steps);
     } } } }
+    // (f) workspace wrap-around: products probe on a large instance, G - 1 small calls, the same probe again
+    for variant in 0..3usize { for (gi, g) in GAPS.iter().enumerate() {
+        let steps = gap_case(&mut rng, true, variant, *g, 10);
+        push(out, if *g > 1000 { "f64" } else { TYS[(variant + gi) % 2] }, steps);
+    } }
 }
 
 pub fn gen(tier: &str, seed: u64, out: &mut Out) {
